@@ -59,6 +59,17 @@ func Attachments(r *rand.Rand, n int, seq *int) ([]any, []gen.Link) {
 		out = append(out, m)
 		links = append(links, gen.Link{Label: label, Target: target, Kind: "attachment:" + kind})
 	}
+	if n > 0 && r.Intn(8) == 0 {
+		// one entry that is no link at all (after some that are, as a rule): the list as a whole fails to load, so none of its
+		// entries is displayed with a number and none may be opened by one
+		poison := []any{"https://files.example/bare-string", map[string]any{"type": "Note", "content": "x"}, 7.0, map[string]any{"url": "https://files.example/untyped"}, nil}[r.Intn(5)]
+		at := len(out)
+		if r.Intn(3) == 0 {
+			at = r.Intn(len(out) + 1)
+		}
+		out = append(out[:at:at], append([]any{poison}, out[at:]...)...)
+		return out, nil
+	}
 	return out, links
 }
 
